@@ -2,6 +2,7 @@ package hsim
 
 import (
 	"fmt"
+	"google.golang.org/protobuf/types/known/timestamppb"
 	"strings"
 	"time"
 
@@ -15,14 +16,16 @@ import (
 // requests the model does not follow, so the scenario ends (desync) after the offence.
 
 type Offence struct {
-	Kind    string   `json:"kind"`
-	Raws    [][]byte `json:"raws,omitempty"`    // message payloads
-	Frame   string   `json:"frame,omitempty"`   // bin | text | unmasked | frag | badlen | huge | ping | pong | close | garbage
-	N       int      `json:"n,omitempty"`       // burst size / traffic volume
-	Then    string   `json:"then,omitempty"`    // fin | rst | resume | none
-	Witness int      `json:"witness,omitempty"` // connection that generates traffic
-	Cut     int      `json:"cut,omitempty"`     // bytes of the last frame that are sent before the connection dies
-	Poses   int      `json:"poses,omitempty"`   // stall: pose updates of the witness, one per frame, behind the relayed custom messages
+	Kind     string   `json:"kind"`
+	Raws     [][]byte `json:"raws,omitempty"`     // message payloads
+	Frame    string   `json:"frame,omitempty"`    // bin | text | unmasked | frag | badlen | huge | ping | pong | close | garbage
+	N        int      `json:"n,omitempty"`        // burst size / traffic volume
+	Then     string   `json:"then,omitempty"`     // fin | rst | resume | none
+	Witness  int      `json:"witness,omitempty"`  // connection that generates traffic
+	Cut      int      `json:"cut,omitempty"`      // bytes of the last frame that are sent before the connection dies
+	Poses    int      `json:"poses,omitempty"`    // stall: pose updates of the witness, one per frame, behind the relayed custom messages
+	Switcher int      `json:"switcher,omitempty"` // stall: connection (member of the session) that switches away while the witness's relays are held up
+	Skew     int64    `json:"skew,omitempty"`     // silence / keepalive: seconds by which the client's clock (the timestamps it writes) is off
 }
 
 func (r *runner) sendFramed(c *Client, payload []byte, frame string) {
@@ -155,12 +158,21 @@ func (r *runner) offence(st *Step) {
 	case "silence":
 		// nothing for longer than the idle timeout: must be disconnected
 		sim.Stats["fault.silence_past_idle_timeout"]++
+		if o.Skew != 0 {
+			// its last message carries a timestamp from a clock that is off: irrelevant to idleness
+			sim.Stats["fault.client_clock_skew"]++
+			c.Send(&hagallpb.Request{Type: hagallpb.MsgType_MSG_TYPE_PING_REQUEST, Timestamp: timestamppb.New(time.Now().Add(time.Duration(o.Skew) * time.Second)), RequestId: c.NextReqID()})
+			r.quiesce()
+		}
 		sim.RunFor(idle + idle/4 + time.Second)
 	case "keepalive":
 		// a ping request every timeout/2 for three timeouts: must not be disconnected
 		for i := 0; i < 6 && !c.Ended(); i++ {
 			sim.RunFor(idle / 2)
-			c.Send(&hagallpb.Request{Type: hagallpb.MsgType_MSG_TYPE_PING_REQUEST, Timestamp: now(), RequestId: c.NextReqID()})
+			c.Send(&hagallpb.Request{Type: hagallpb.MsgType_MSG_TYPE_PING_REQUEST, Timestamp: timestamppb.New(time.Now().Add(time.Duration(o.Skew) * time.Second)), RequestId: c.NextReqID()})
+		}
+		if o.Skew != 0 {
+			sim.Stats["fault.client_clock_skew"]++
 		}
 		mustStay = true
 		sim.Stats["probe.keepalive_across_idle_timeouts"]++
@@ -196,6 +208,29 @@ func (r *runner) offence(st *Step) {
 				ms.Entities[poseEnt].Pose = poseOf(p)
 			}
 		}
+		// ... and a third member switches to another session while those relays are held up by
+		// the reader that stopped: from its join answer on it must see nothing of the old session
+		var switcher *Client
+		finishSwitch := func() {}
+		if o.Switcher > 0 && len(sentBodies) > 0 {
+			if x := r.clients[o.Switcher]; x != nil && !x.Ended() && r.m.conn(o.Switcher).Session == wasSession {
+				switcher = x
+				sim.RunFor(r.w.cfg.Net.MinLat + r.w.cfg.Net.Jitter + time.Millisecond)
+				st := &Step{Conn: o.Switcher, Op: "join", Sess: "new"}
+				x.Mark()
+				p := r.m.Build(st, o.Switcher, x.NextReqID())
+				x.Send(p.Req)
+				sim.RunFor(10 * (r.w.cfg.Net.MinLat + r.w.cfg.Net.Jitter + time.Millisecond))
+				// (the model follows once the answer is there: finishSwitch)
+				finishSwitch = func() {
+					if p != nil {
+						p.Finish(r.m, x.Since())
+						p = nil
+					}
+				}
+				sim.Stats["fault.switch_while_relays_held_up"]++
+			}
+		}
 		// the offender also has requests of its own outstanding
 		var myRIDs []uint32
 		for i := 0; i < o.Cut; i++ {
@@ -209,6 +244,7 @@ func (r *runner) offence(st *Step) {
 		case "resume":
 			c.Resume()
 			r.quiesce()
+			finishSwitch()
 			if !c.Ended() {
 				var got []string
 				answered := map[uint32]int{}
@@ -225,6 +261,21 @@ func (r *runner) offence(st *Step) {
 					r.v("C02", "relay-missing", "%s", d)
 					r.v("C08", "slow-reader-lost-messages", "%s", d)
 					r.v("C09", "request-unanswered", "%s", d)
+				}
+				if switcher != nil {
+					joinedAt := -1
+					for i, m := range switcher.Since() {
+						if m.Type == 4 {
+							joinedAt = i
+						}
+						if b, ok := m.Msg.(*hagallpb.CustomMessageBroadcast); ok && joinedAt >= 0 && strings.HasPrefix(string(b.Body), "bp-") {
+							d := fmt.Sprintf("%s switched to a new session while relays of its old session were held up by a reader that had stopped; after the answer to its join it was still sent custom message %q of the old session", switcher.Label, string(b.Body))
+							r.v("C03", "foreign-effect", "%s", d)
+							r.v("C02", "relay-extra", "%s", d)
+							r.v("C08", "slow-reader-lost-messages", "%s", d)
+							break
+						}
+					}
 				}
 				if len(sentPoses) > 0 {
 					var gotPoses []float32
@@ -259,9 +310,13 @@ func (r *runner) offence(st *Step) {
 		case "fin":
 			c.CloseFull() // unread data pending: the kernel resets the peer's writes
 			clientClosed = true
+			r.quiesce()
+			finishSwitch()
 		case "rst":
 			c.Reset()
 			clientClosed = true
+			r.quiesce()
+			finishSwitch()
 		}
 	}
 	r.quiesce()
